@@ -62,6 +62,7 @@ class TreeSpec:
     r_root: str
     r_sub: str = "none"
     init_letter: str = ""
+    sibling: str = "none"  # an unrelated sibling package whose __init__ imports a declaration of the module: none | priv_alias | alias | name | star
     # filled by build()
     files: dict[str, str] = field(default_factory=dict)
     decls: list[GDecl] = field(default_factory=list)
@@ -74,7 +75,7 @@ class TreeSpec:
     @property
     def label(self) -> str:
         place = f"d{self.depth}:{'_' if self.sub_private else ''}{'sub/' if self.depth == 2 else ''}{'_' if self.mod_private else ''}m"
-        return f"{place}|{'+'.join(self.letters)}{'|init:' + self.init_letter if self.init_letter else ''}|root:{self.r_root}|sub:{self.r_sub}"
+        return f"{place}|{'+'.join(self.letters)}{'|init:' + self.init_letter if self.init_letter else ''}{'|sib:' + self.sibling if self.sibling != 'none' else ''}|root:{self.r_root}|sub:{self.r_sub}"
 
     @property
     def root_pkg(self) -> str:
@@ -117,9 +118,10 @@ def _module_source(T: str, letters) -> tuple[str, list[tuple]]:  # noqa: N803
                 ("method", f"nm{T}", (*c, f"Ni{T}"), L, False), ("class", f"_Nq{T}", c, L, False), ("method", f"nqm{T}", (*c, f"_Nq{T}"), L, False),
             ]  # fmt: skip
         elif L == "qc":
-            src.append(f"class _Qc{T}:\n    qca{T}: int = 1\n\n    def qcm{T}(self) -> int:\n        return 1\n")
+            src.append(f"class _Qc{T}:\n    qca{T}: int = 1\n\n    def qcm{T}(self) -> int:\n        return 1\n\n    def __len__(self) -> int:\n        return 1\n\n    class Qn{T}:\n        def __iter__(self) -> int:\n            return 1\n")
             c = (f"_Qc{T}",)
-            d += [("class", f"_Qc{T}", (), L, False), ("class_attr", f"qca{T}", c, L, False), ("method", f"qcm{T}", c, L, False)]
+            d += [("class", f"_Qc{T}", (), L, False), ("class_attr", f"qca{T}", c, L, False), ("method", f"qcm{T}", c, L, False), ("method", "__len__", c, L, False),
+                  ("class", f"Qn{T}", c, L, False), ("method", "__iter__", (*c, f"Qn{T}"), L, False)]
         elif L == "en":
             src.append(f"class En{T}(Enum):\n    EA{T} = 1\n    EB{T} = 2\n")
             d += [("enum", f"En{T}", (), L, False), ("enum_member", f"EA{T}", (f"En{T}",), L, False), ("enum_member", f"EB{T}", (f"En{T}",), L, False)]
@@ -206,6 +208,21 @@ def build(spec: TreeSpec) -> TreeSpec | None:
         # a private sub-package does not make anything public, but it is a package that re-exports (a legitimate location)
         exports += [(f"{root}.{sub}", t, e if not spec.sub_private else "_" + e) for t, e in sub_exports]
         exports += [(root, t, e) for t, e in fr[1]]
+    # sibling package that imports (for its own use / re-exports) a declaration of the module by absolute import
+    if spec.sibling != "none":
+        sdir = f"{rdir}/sib{T}"
+        if spec.sibling == "star":
+            line = f"from {mod_dotted} import *\n"
+            sib_exports = [("*", "*")]
+        else:
+            if pub_t is None:
+                return None
+            ali = {"priv_alias": f"_SibHid{T}", "alias": f"SibAl{T}", "name": None}[spec.sibling]
+            line = f"from {mod_dotted} import {pub_t}" + (f" as {ali}" if ali else "") + "\n"
+            sib_exports = [(pub_t, ali or pub_t)]
+        files[f"{sdir}/__init__.py"] = line
+        files[f"{sdir}/smod{T}.py"] = f"def sibfn{T}() -> int:\n    return 1\n"
+        exports += [(f"{root}.sib{T}", t, e) for t, e in sib_exports]
     init_src = ""
     idecls: list[tuple] = []
     if spec.init_letter == "ic":
@@ -285,6 +302,13 @@ def enumerate_trees(tier: str) -> list[TreeSpec]:
         subsets += [("pf", "qf", "pc"), ("pc", "qc", "en"), ("pf", "pc", "qc", "en", "qe", "ex"), tuple(LETTERS)]
     root_forms_d2 = [*R_FORMS, "chain"]
     for letters in subsets:
+        # depth 1: an unrelated sibling package imports a declaration of the module
+        for mod_private in (False, True):
+            for sib in ("priv_alias", "alias", "name", "star"):
+                for r in ("none", "name"):
+                    s = build(TreeSpec(next(tid), 1, mod_private, False, letters, r, "none", "", sib))
+                    if s:
+                        specs.append(s)
         # depth 1
         for mod_private in (False, True):
             for r in R_FORMS:
